@@ -1,6 +1,6 @@
 // C12 (G1/O1 + in-target semantic oracle) — libFuzzer target for occa::lang::tokenizer_t.
 //
-// Input: arbitrary bytes without interior NUL (the API is `const char*`), copied to an exact-size heap buffer
+// Input: arbitrary bytes without interior NUL (the API is `const char*`; an input is cut at its first NUL), copied to an exact-size heap buffer
 // (size + the terminating NUL) so that a one-byte over-read is an ASan heap-buffer-overflow.
 // Per input, each with fresh tokenizer state (tokenizer_t::set() -> clear(), see C12_common.hpp):
 //   1. tokenize the buffer as a string source                     (crash / sanitizer report = failure)
@@ -19,7 +19,7 @@ using namespace c12;
 // Fixed-size storage only: an allocation that outlives LLVMFuzzerTestOneInput makes libFuzzer run a (slow) leak check.
 enum { C_NUL = 0, C_THREW, C_ERRORS, C_ILLFORMED, C_ORACLE, C_ORACLE_NT, C_KNOWN_RAW, C_COUNT };
 static const char *C_NAMES[C_COUNT] = {
-  "rejected-interior-NUL", "occa-exception(clean rejection)", "tokenizer-reported-errors",
+  "input-cut-at-first-NUL", "occa-exception(clean rejection)", "tokenizer-reported-errors",
   "tokens-not-all-well-formed(oracle not applicable)", "roundtrip-oracle-evaluated",
   "roundtrip-oracle-evaluated-nontrivial", "raw_string_print"};
 static long g_evals = 0;
@@ -109,7 +109,11 @@ extern "C" int LLVMFuzzerInitialize(int *, char ***) {
 
 extern "C" int LLVMFuzzerTestOneInput(const uint8_t *data, size_t size) {
   ++g_evals;
-  if (size && memchr(data, 0, size)) { ++g_count[C_NUL]; return 0; }
+  // the API is `const char*`: bytes behind the first NUL are invisible to the tokenizer, the input is the prefix
+  if (size) {
+    const void *nul = memchr(data, 0, size);
+    if (nul) { ++g_count[C_NUL]; size = (size_t) ((const uint8_t*) nul - data); }
+  }
   ExactBuf buf(data, size);
 
   Result r1 = tokenize(buf.p);
